@@ -1644,6 +1644,9 @@ func runC10(c *Ctx) {
 	if sel("p") {
 		c10RunProps(c, sh, thorough)
 	}
+	if sel("x") {
+		c10RunTrunc(c, sh, thorough)
+	}
 	for _, ji := range []int{0, 2, 3, 4} {
 		if sel(fmt.Sprintf("c%d", ji)) {
 			c10RunChildJob(c, &childTotal, ji, thorough)
